@@ -41,10 +41,16 @@ CONSTANT FirstRunReadsCmdline  \* TRUE: a first configuration (no coredata.dat) 
 (*        none                                                              *)
 (*   sy   the data has been fsync'ed                                        *)
 
-C(st, ver, sy) == [st |-> st, ver |-> ver, sy |-> sy]
+(*   own  the content was produced by the run that is executing (a file found  *)
+(*        at the start of a run - the pre-state, or what a killed run left to   *)
+(*        its follow-up - is not own until the run truncates it)                *)
+(*   st = garbled: data appended to content the run did not produce itself      *)
+C(st, ver, sy) == [st |-> st, ver |-> ver, sy |-> sy, own |-> TRUE]
+Found(st, ver) == [st |-> st, ver |-> ver, sy |-> TRUE, own |-> FALSE]
 Absent == C("absent", "none", TRUE)
 IsDir  == C("dir", "none", TRUE)
-Torn(c) == c.st \in {"empty", "partial"}
+Garbled == [st |-> "garbled", ver |-> "new", sy |-> FALSE, own |-> FALSE]
+Torn(c) == c.st \in {"empty", "partial", "garbled"}
 
 Core     == "meson-private/coredata.dat"
 CoreTmp  == "meson-private/coredata.dat~"
@@ -90,9 +96,11 @@ Apply(fs, ops, i) ==
         after == IF LastChunk(ops, i) THEN "full" ELSE "partial"
     IN CASE o.op = "creat"  -> [fs EXCEPT ![o.f] = C("empty", "new", FALSE)]
          [] o.op = "append" -> IF fs[o.f].st = "absent" THEN [fs EXCEPT ![o.f] = C("empty", "new", FALSE)] ELSE fs
-         [] o.op = "write"  -> [fs EXCEPT ![o.f] = C(after, "new", FALSE)]
+         \* data written without a truncation by this run lands behind whatever the file held (O_APPEND)
+         [] o.op = "write"  -> [fs EXCEPT ![o.f] = IF ~fs[o.f].own /\ fs[o.f].st \in {"partial", "full", "garbled"}
+                                                   THEN Garbled ELSE C(after, "new", FALSE)]
          [] o.op = "copy"   -> [fs EXCEPT ![o.f] = C(after, fs[o.g].ver, FALSE)]
-         [] o.op = "fsync"  -> [fs EXCEPT ![o.f] = C(fs[o.f].st, fs[o.f].ver, TRUE)]
+         [] o.op = "fsync"  -> [fs EXCEPT ![o.f] = [fs[o.f] EXCEPT !.sy = TRUE]]
          [] o.op = "rename" ->
                \* a source the script never produced (a file outside the watched set) is complete new content
                LET src == IF fs[o.f].st = "absent" THEN C("full", "new", FALSE) ELSE fs[o.f]
@@ -102,7 +110,7 @@ Apply(fs, ops, i) ==
          [] OTHER -> fs
 
 -----------------------------------------------------------------------------
-(* Scripts: [kind, fresh, failed, usesM, usesE, pre, ops]                   *)
+(* Scripts: [kind, fresh, failed, usesM, usesE, pre, ops, recover]          *)
 (*   kind    setup | reconfigure | configure | wipe                         *)
 (*   fresh   the directory was not configured before (old values = the     *)
 (*           defaults)                                                      *)
@@ -119,7 +127,7 @@ PreState(sc) ==
     [n \in NamesOf(sc) |->
         IF \E j \in 1..Len(sc.pre) : sc.pre[j].f = n
         THEN LET j == CHOOSE j \in 1..Len(sc.pre) : sc.pre[j].f = n
-             IN IF sc.pre[j].st = "dir" THEN IsDir ELSE C(sc.pre[j].st, sc.pre[j].ver, TRUE)
+             IN IF sc.pre[j].st = "dir" THEN IsDir ELSE Found(sc.pre[j].st, sc.pre[j].ver)
         ELSE Absent]
 
 RECURSIVE Run(_, _)
@@ -176,6 +184,19 @@ RecoverOutcome(fs) ==
        ELSE IF l.st = "absent" THEN Out(FALSE, TRUE, "none", "none", "none", "coredata-unreadable")
        ELSE Out(TRUE, TRUE, recorded, M(recorded), "default", "regenerated")
 
+\* What the follow-up leaves behind.  Scripts carry `recover`: the operations of the follow-up configure run
+\* (recorded from the real `meson setup --reconfigure`; in the design model the design's own configure run).
+\* It starts from what the killed run left - nothing of which it produced itself - and must not leave a
+\* state file torn; in particular it must truncate a stale temporary file rather than append to it.
+Handover(fs) == [n \in DOMAIN fs |-> IF fs[n].st \in {"absent", "dir"} THEN fs[n] ELSE [fs[n] EXCEPT !.own = FALSE]]
+RECURSIVE Fold(_, _, _)
+Fold(fs, ops, k) == IF k = 0 THEN fs ELSE Apply(Fold(fs, ops, k - 1), ops, k)
+\* operations of the follow-up on files the script does not know are skipped
+KnownOps(fs, ops) == SelectSeq(ops, LAMBDA o : o.f \in DOMAIN fs /\ (o.g = "" \/ o.g \in DOMAIN fs))
+PostRecover(sc, fs) == LET ops == KnownOps(fs, sc.recover) IN Fold(Handover(fs), ops, Len(ops))
+\* files that exist only as temporaries of an interrupted writer may stay torn if the follow-up never touches them
+RecoveryClean(sc, fs) == \A n \in DOMAIN fs : ~(PostRecover(sc, fs)[n].st = "garbled")
+
 \* scripts say which classes carry a non-default value (usesM, usesE; class d always does)
 GenAllowed(sc, v) == v \in {"old", "new"} \/ (v = "default" /\ sc.fresh)
 ValueAllowed(sc, o) == /\ GenAllowed(sc, o.vd)
@@ -191,6 +212,7 @@ Lost(sc, o) == (IF ~GenAllowed(sc, o.vd) THEN <<"d">> ELSE <<>>)
 
 Recoverable(fs)        == RecoverOutcome(fs).ok
 ValuesOldOrNew(sc, fs) == RecoverOutcome(fs).ok => ValueAllowed(sc, RecoverOutcome(fs))
+RecoveryIsClean(sc, fs) == RecoverOutcome(fs).ok => RecoveryClean(sc, fs)
 \* core data and build.ninja go through a temporary name: the installed name is never torn
 CoreNeverTorn(fs)      == ~Torn(fs[Core])
 NinjaNeverTorn(fs)     == Ninja \in DOMAIN fs => ~Torn(fs[Ninja])
@@ -211,6 +233,7 @@ Verdict(sc, k, fs) ==
        ELSE IF sc.failed /\ k = Len(sc.ops) /\ ~RolledBack(sc, fs) THEN "RolledBack"
        ELSE IF crashable /\ ~Recoverable(fs) THEN "Recoverable"
        ELSE IF crashable /\ ~ValuesOldOrNew(sc, fs) THEN "ValuesOldOrNew"
+       ELSE IF crashable /\ ~RecoveryIsClean(sc, fs) THEN "RecoveryClean"
        ELSE "ok"
 
 -----------------------------------------------------------------------------
@@ -252,6 +275,7 @@ InvValuesOldOrNew == (phase = "recovered" /\ out.ok) => ValueAllowed(sc, out)
 InvCoreNeverTorn  == CoreNeverTorn(fs)
 InvNinjaNeverTorn == NinjaNeverTorn(fs)
 InvCoreDurable    == CoreDurable(fs)
+InvRecoveryClean  == (phase = "recovered" /\ out.ok) => RecoveryClean(sc, fs)
 InvRolledBack     == (phase = "crashed" /\ sc.failed) => RolledBack(sc, fs)
 \* the incremental machine and the fold used by trace validation agree
 InvRunIsFold      == fs = Run(sc, pc)
